@@ -112,10 +112,13 @@ def run(ctx):
     built = prepare(ctx, ["Gen_grammar"], ["Props/C01.vo", "Corr/Parse.vo"])
     cases = gen_cases(ctx, 5 if ctx.quick else 6, 600 if ctx.quick else 8000, 12 if ctx.quick else 24)
     terms, results = [], []
-    for s, _ in cases:
+    for s, otoks_ in cases:
         r = parse_impl(s)
         results.append(r)
         terms.append(f"({gtext(s)}, {obs_term(r)})")
+        ctx.dist("tokens", ctx.bucket(len(otoks_)) if otoks_ is not None else "unknown")
+        ctx.dist("characters", ctx.bucket(len(s)))
+        ctx.dist("outcome", "tree" if r[0] == "ok" else r[1])
     n, bad, err = runner.run_case_files("C01", IMPORTS, "parse_case", "parse_check", terms)
     if err:
         ctx.broke("correspondence (parser) could not be evaluated in Coq", err)
